@@ -18,7 +18,7 @@ RULE = (
     "> 11, signal range index > 4, colour spec index > 4, custom colour spec with primaries/matrix/transfer index > 3), then up to "
     "~10 units drawn from whole pictures or fragmented pictures taken from the encoder for 8 tiny configurations (LD/HQ, "
     "fragments 1/2/3, asymmetric transform, different horizontal wavelet, fields), padding/auxiliary units with 0-40 payload "
-    "bytes and repeated headers, ending in end-of-sequence. Every auto-capable field (next/previous parse offset per unit, picture "
+    "bytes and repeated headers, ending in end-of-sequence; extended transform parameters also in redundant encodings (flag set, value equal to the assumed one; same horizontal wavelet with the index flag set). Every auto-capable field (next/previous parse offset per unit, picture "
     "number per picture/fragment, major_version per header) is independently explicit (drawn value), AUTO, or deleted; "
     "geometry-neutral fields (parse_info_prefix, minor_version, level, profile, padding bytes...) are randomly deleted. Only "
     "descriptions that autofill_and_serialise_stream serialises are judged. Oracle (autofill model): deserialise the output; every "
@@ -26,7 +26,7 @@ RULE = (
     "distances measured in the output (13+payload for padding/aux, 0 for the last/first unit of a sequence); AUTO picture numbers "
     "follow the previous picture (+1 mod 2^32, restart at 0, fragments with slices repeat); AUTO major_version equals the harness' "
     "own minimum-version table; extended transform parameters are dropped exactly when an AUTO header resolves below 3; an "
-    "all-AUTO description in a valid order is accepted by the validator. Non-trivial = at least one explicit and one AUTO field of "
+    "all-AUTO description in a valid order is accepted by the validator; an unserialisable description must stay unserialisable when its AUTO versions are replaced by the harness' minimum version. Non-trivial = at least one explicit and one AUTO field of "
     "different kinds and >= 2 picture-bearing units; distinct by description hash."
 )
 ASSUMPTIONS = [
@@ -352,6 +352,45 @@ def check(plan, col):
         B.autofill_and_serialise_stream(f, stream)
     except Exception as e:
         facts["outcome"] = "not_serialisable:" + type(e).__name__
+        # metamorphic relation: the same description with every AUTO/omitted major_version replaced by the harness'
+        # own minimum version (and, as the autofill documentation asks of explicit versions below 3, without the
+        # extended transform parameters) must be just as unserialisable; if it serialises, the automatic version is
+        # what made the description unserialisable (seed C07e)
+        try:
+            alt = copy.deepcopy(original)
+            n_auto = 0
+            for seq in alt["sequences"]:
+                units = seq["data_units"]
+                min_v = model_min_version(units, None)
+                auto_active = False
+                for du in units:
+                    if "sequence_header" in du:
+                        pp = du["sequence_header"].setdefault("parse_parameters", B.ParseParameters())
+                        auto_active = pp.get("major_version", AUTO) is AUTO
+                        if auto_active:
+                            pp["major_version"] = min_v
+                            n_auto += 1
+                    if auto_active and min_v < 3:
+                        tp = None
+                        if "picture_parse" in du:
+                            tp = du["picture_parse"]["wavelet_transform"]["transform_parameters"]
+                        elif "fragment_parse" in du and "transform_parameters" in du["fragment_parse"]:
+                            tp = du["fragment_parse"]["transform_parameters"]
+                        if tp is not None:
+                            tp.pop("extended_transform_parameters", None)
+            ok = False
+            if n_auto:
+                try:
+                    B.autofill_and_serialise_stream(BytesIO(), alt)
+                    ok = True
+                except Exception:
+                    ok = False
+        except Exception:
+            ok = False
+        if ok:
+            col.fail("auto-version-unserialisable", rec,
+                     "description is rejected by autofill_and_serialise_stream (%s: %s) but serialises once the AUTO/omitted "
+                     "major_version fields carry the harness' minimum version" % (type(e).__name__, str(e)[:200]))
         return facts
     data = f.getvalue()
     try:
